@@ -1,0 +1,29 @@
+//go:build verif
+
+package executor
+
+import (
+	"github.com/AliceO2Group/Control/executor/executable"
+	mesos "github.com/mesos/mesos-go/api/v1/lib"
+	"github.com/mesos/mesos-go/api/v1/lib/encoding"
+	"github.com/mesos/mesos-go/api/v1/lib/executor"
+	"github.com/mesos/mesos-go/api/v1/lib/executor/calls"
+)
+
+// RunEventLoopForVerif builds the internalState exactly as Run does and runs the
+// real eventLoop with the real handlers (buildEventHandler). Only the agent
+// connection is replaced: outgoing calls go to cli, incoming events are read
+// from decoder. Verification builds only (tag `verif`).
+func RunEventLoopForVerif(cli calls.Sender, decoder encoding.Decoder) error {
+	state := &internalState{
+		cli:            cli,
+		unackedTasks:   make(map[mesos.TaskID]mesos.TaskInfo),
+		unackedUpdates: make(map[string]executor.Call_Update),
+		failedTasks:    make(map[mesos.TaskID]mesos.TaskStatus),
+		killedTasks:    make(map[mesos.TaskID]mesos.TaskStatus),
+		activeTasks:    make(map[mesos.TaskID]executable.Task),
+		statusCh:       make(chan mesos.TaskStatus, 1024),
+		messageCh:      make(chan []byte),
+	}
+	return eventLoop(state, decoder, buildEventHandler(state))
+}
